@@ -308,6 +308,7 @@ macro_rules! ctor_ty { ($s:expr, $V:ident, $name:literal, $N:expr, $kind:ident, 
         lanes_eq(s, $name, concat!($name, " One::one"), catch(|| <$V<Term> as num_traits::One>::one().de()), &vec![Term::cst(1); N]);
         lanes_eq(s, $name, concat!($name, " iota<i32>"), catch(|| <$V<i32>>::iota().de()), &(0..N as i32).collect::<Vec<_>>());
         lanes_eq(s, $name, concat!($name, " iota<u8>"), catch(|| <$V<u8>>::iota().de()), &(0..N as u8).collect::<Vec<_>>());
+        lanes_eq(s, $name, concat!($name, " elem_count/ELEM_COUNT"), catch(|| vec![<$V<u8>>::iota().elem_count(), <$V<u8>>::ELEM_COUNT, <$V<i32>>::iota().as_slice().len()]), &vec![N, N, N]);
         // tuples and arrays (built / decoded positionally in the check)
         lanes_eq(s, $name, concat!($name, " From<tuple>"), catch(|| <$V<Term>>::from(($(ta[$i]),+)).de()), &ta);
         lanes_eq(s, $name, concat!($name, " into_tuple"), catch(|| { let t = a.into_tuple(); vec![$(t.$i),+] }), &ta);
@@ -717,7 +718,7 @@ fn main() {
         "13 types x 7 functions with closures that tuple up / wrap their arguments; second operand is a u32 vector with distinct lanes; result position i must be built from the i-th elements only (call order not asserted); non-trivial: all",
         true, true, |s| { s.require_classes(&ALL_TYPES); for_all_vecs!(map_ty, s); });
     rep.section("constructors, conversions, iteration order",
-        "13 types: broadcast, From<T>, zero, one, Zero::zero, One::one, iota (i32 and u8: lane i = i), From<tuple>, into_tuple, From<[T;N]>, into_array, as_slice, as_mut_slice, iter, into_iter (+rev), &V into_iter, indexing, from_iter and from_slice for EVERY source length 0..=N+2 (prefix in order, rest Default), Display (numbers parsed back in order); one evaluation per (type, function[, length]); non-trivial: all",
+        "13 types: broadcast, From<T>, zero, one, Zero::zero, One::one, iota (i32 and u8: lane i = i), elem_count / ELEM_COUNT = N, From<tuple>, into_tuple, From<[T;N]>, into_array, as_slice, as_mut_slice, iter, into_iter (+rev), &V into_iter, indexing, from_iter and from_slice for EVERY source length 0..=N+2 (prefix in order, rest Default), Display (numbers parsed back in order); one evaluation per (type, function[, length]); non-trivial: all",
         true, true, |s| { s.require_classes(&ALL_TYPES); for_all_vecs!(ctor_ty, s); });
     rep.section("scalar on the left: s + V, s * V for the 10 primitive types (non-generic impls)",
         "13 types x {Add, Mul} x {i8 u8 i16 u16 i32 u32 i64 u64 f32 f64}: every pair (scalar s, lane value x) of the alphabet whose exact result fits the type (8-bit: all 256x256 pairs; wider ints: 12-15 boundary values MIN..MAX, thorough: plus all +-2^k, 2^k+-1; floats: 16 values incl. signed zeros, infinities, NaN), x placed in the lanes i = phase mod 3 for phase 0..2, alone at every single lane, and in all lanes, with small fill values (-1/0/1 pattern, replaced by the neutral element where it would overflow) elsewhere; every lane must equal s∘lane_i computed on scalars (floats: same bits or both NaN); overflowing pairs are skipped (panics are outside the property); non-trivial: s∘x differs from x",
